@@ -19,7 +19,7 @@ def profile(st):
 CHECK = SessionCheck(
     prop='C10', profile=profile,
     monitors=lambda: [Registry(), RoutingMonitor(('C10',))],
-    tiers={'quick': 1500, 'thorough': 150_000},
+    tiers={'quick': 1500, 'thorough': 60_000},
     nontrivial=lambda r: r['counters'].get('c10_exit_sets_checked', 0) > 0,
     rule=('one seed -> one session whose program declares entries (market/limit/stop/ladders/mixed) and SL/TP rows in go_long/'
           'go_short, on_open_position, update_position, on_increased/reduced_position and through liquidate(), with rows at '
